@@ -55,6 +55,39 @@ Proof.
          destruct (N.eqb t S_IFBLK); apply mode_is_dir_small; lia).
 Qed.
 
+(* ---------------- the symlink type bit ---------------- *)
+Lemma testbit27 m : N.testbit m 27 = negb (N.eqb ((m / 134217728) mod 2) 0).
+Proof.
+  pose proof (N.testbit_spec' m 27) as H. change (2 ^ 27) with 134217728 in H.
+  destruct (N.testbit m 27); simpl in H; rewrite <- H; reflexivity.
+Qed.
+
+Lemma land_pow27 m : N.land m 134217728 = if N.testbit m 27 then 134217728 else 0.
+Proof.
+  apply N.bits_inj. intros k. rewrite N.land_spec. change 134217728 with (2 ^ 27). rewrite N.pow2_bits_eqb.
+  destruct (N.eqb 27 k) eqn:E.
+  - apply N.eqb_eq in E. subst k. rewrite andb_true_r. destruct (N.testbit m 27) eqn:T.
+    + rewrite N.pow2_bits_true. reflexivity.
+    + rewrite N.bits_0. reflexivity.
+  - rewrite andb_false_r. destruct (N.testbit m 27).
+    + rewrite N.pow2_bits_false; auto. apply N.eqb_neq in E. exact E.
+    + rewrite N.bits_0. reflexivity.
+Qed.
+
+Lemma go_mode_link t perm : mode_is_symlink (go_mode (KLink t) perm) = true.
+Proof.
+  unfold go_mode, mode_is_symlink, has_bits. pose proof (land511 perm) as Hp.
+  unfold ModeSetuid, ModeSetgid, ModeSticky, ModeSymlink. rewrite land_pow27, testbit27.
+  set (x := N.land perm 511 + (if negb (N.land perm S_ISUID =? 0) then 8388608 else 0)
+            + (if negb (N.land perm S_ISGID =? 0) then 4194304 else 0)
+            + (if negb (N.land perm S_ISVTX =? 0) then 1048576 else 0)).
+  assert (Hx : x < 134217728).
+  { unfold x. destruct (negb (N.land perm S_ISUID =? 0)), (negb (N.land perm S_ISGID =? 0)), (negb (N.land perm S_ISVTX =? 0)); lia. }
+  assert (E : (x + 134217728) / 134217728 = 1).
+  { symmetry. apply (N.div_unique (x + 134217728) 134217728 1 x); lia. }
+  rewrite E. reflexivity.
+Qed.
+
 (* ---------------- strongly sorted lists ---------------- *)
 Lemma SS_app' {A} (R : A -> A -> Prop) l1 l2 :
   StronglySorted R l1 -> StronglySorted R l2 -> (forall a b, In a l1 -> In b l2 -> R a b) ->
@@ -266,13 +299,15 @@ End Walk.
 Definition is_kdir (n : inode) : bool := match i_kind n with KDir _ _ => true | _ => false end.
 
 Lemma listing_of_shape : forall l seen,
-  Forall2 (fun (s : stat) (e : bytes * N * inode) => st_path s = fst (fst e) /\ st_is_dir s = is_kdir (snd e))
+  Forall2 (fun (s : stat) (e : bytes * N * inode) => st_path s = fst (fst e) /\ st_is_dir s = is_kdir (snd e)
+                                                      /\ st_mode s = go_mode (i_kind (snd e)) (m_mode (i_meta (snd e))))
           (listing_of l seen) l.
 Proof.
   induction l as [|[[p i] n] l IH]; intros seen; simpl; [constructor|].
-  assert (M : forall hl, st_path (mkstat p n hl) = p /\ st_is_dir (mkstat p n hl) = is_kdir n).
-  { intros hl. split; [reflexivity|]. unfold st_is_dir, mkstat, is_kdir. simpl. apply go_mode_dir. }
-  destruct (i_kind n) eqn:Ek; try (destruct (seen_path i seen)); constructor; auto; apply M.
+  assert (M : forall hl, st_path (mkstat p n hl) = p /\ st_is_dir (mkstat p n hl) = is_kdir n
+                         /\ st_mode (mkstat p n hl) = go_mode (i_kind n) (m_mode (i_meta n))).
+  { intros hl. split; [reflexivity|]. split; [|reflexivity]. unfold st_is_dir, mkstat, is_kdir. simpl. apply go_mode_dir. }
+  destruct (i_kind n) eqn:Ek; try (destruct (seen_path i seen)); constructor; auto; cbn [fst snd]; rewrite ?Ek; apply M.
 Qed.
 
 Definition plt (a b : stat) : Prop := compare_path (st_path a) (st_path b) = Lt.
@@ -297,7 +332,8 @@ Record old_facts (f : fs) (L : list stat) : Prop := {
   of_sorted : StronglySorted plt L;
   of_entry : forall s, In s L ->
       ok_path (st_path s) = true
-      /\ exists i, rwalk f D (comps (st_path s)) = Some i /\ st_is_dir s = is_dir f i /\ get f i <> None;
+      /\ exists i, rwalk f D (comps (st_path s)) = Some i /\ st_is_dir s = is_dir f i /\ get f i <> None
+                    /\ (is_link f i = true -> mode_is_symlink (st_mode s) = true);
   of_names : forall s c, In s L -> In c (comps (st_path s)) -> exists d, reach f d /\ blookup c (ents f d) <> None;
   of_closed : forall s a b, In s L -> comps (st_path s) = a ++ b -> a <> [] -> b <> [] ->
       exists s', In s' L /\ comps (st_path s') = a
@@ -347,61 +383,31 @@ Proof.
   { intros x Hx. destruct (Hspec x Hx) as (A & B & _). apply okname_forall in B. destruct B. repeat split; auto. }
   assert (Hcomps : forall x, In x LC -> comps (joinc (fst (fst x))) = fst (fst x)).
   { intros x Hx. destruct (Hokc x Hx) as (A & _ & C). apply comps_joinc; auto. }
-  assert (Hs : forall s, In s L -> exists x, In x LC /\ st_path s = joinc (fst (fst x)) /\ st_is_dir s = is_kdir (snd x)).
-  { intros s Hin. destruct (Forall2_In_l _ _ _ s F2 Hin) as (x & Hx & H1 & H2). exists x. split; auto. }
+  assert (Hs : forall s, In s L -> exists x, In x LC /\ st_path s = joinc (fst (fst x)) /\ st_is_dir s = is_kdir (snd x)
+                                              /\ st_mode s = go_mode (i_kind (snd x)) (m_mode (i_meta (snd x)))).
+  { intros s Hin. destruct (Forall2_In_l _ _ _ s F2 Hin) as (x & Hx & H1 & H2 & H3). exists x. split; auto. }
   assert (Hx : forall x, In x LC -> exists s, In s L /\ st_path s = joinc (fst (fst x))).
   { intros x Hin. destruct (Forall2_In_r _ _ _ x F2 Hin) as (s & Hs' & H1 & H2). exists s. split; auto. }
   constructor.
   - apply (Forall2_SS _ plt clt L LC F2); [|apply (walkc_sorted D f W 64 D (reach_refl D f))].
-    intros a a' b b' Hb Hb' (Ea & _) (Ea' & _) Hlt. unfold plt. cbn [cpath fst snd app] in Ea, Ea'.
+    intros a a' b b' Hb Hb' (Ea & _ & _) (Ea' & _ & _) Hlt. unfold plt. cbn [cpath fst snd app] in Ea, Ea'.
     rewrite Ea, Ea', compare_path_lex, (Hcomps b Hb), (Hcomps b' Hb'). exact Hlt.
-  - intros s Hin. destruct (Hs s Hin) as (x & Hxin & Ep & Ed). destruct (Hspec x Hxin) as (A & B & C & G).
+  - intros s Hin. destruct (Hs s Hin) as (x & Hxin & Ep & Ed & Em). destruct (Hspec x Hxin) as (A & B & C & G).
     split; [rewrite Ep; apply okc_ok_path; apply (Hokc x Hxin)|].
-    exists (snd (fst x)). rewrite Ep, (Hcomps x Hxin). split; [exact C|]. split.
+    exists (snd (fst x)). rewrite Ep, (Hcomps x Hxin). split; [exact C|]. split; [|split].
     + rewrite Ed. unfold is_kdir, is_dir, dir_of. rewrite G. destruct (snd x) as [k m]. destruct k; reflexivity.
     + rewrite G. discriminate.
-  - intros s c Hin Hc. destruct (Hs s Hin) as (x & Hxin & Ep & _). destruct (Hspec x Hxin) as (_ & _ & C & _).
+    + intros Hl. rewrite Em. unfold is_link in Hl. rewrite G in Hl. destruct (snd x) as [k m]. cbn [i_kind i_meta] in Hl |- *.
+      destruct k; try discriminate. apply go_mode_link.
+  - intros s c Hin Hc. destruct (Hs s Hin) as (x & Hxin & Ep & _ & _). destruct (Hspec x Hxin) as (_ & _ & C & _).
     rewrite Ep, (Hcomps x Hxin) in Hc. apply (rwalk_names f (fst (fst x)) D (snd (fst x)) (reach_refl D f) C c Hc).
-  - intros s a b Hin Ec Ha Hb. destruct (Hs s Hin) as (x & Hxin & Ep & _).
+  - intros s a b Hin Ec Ha Hb. destruct (Hs s Hin) as (x & Hxin & Ep & _ & _).
     rewrite Ep, (Hcomps x Hxin) in Ec. destruct x as [[cs i] n]. simpl in Ec.
     destruct (walkc_closed D f W 64 D (reach_refl D f) cs i n a b Hxin Ec Ha Hb) as (i' & n' & Hin').
     destruct (Hx _ Hin') as (s' & Hs' & Ep'). exists s'. split; auto. rewrite Ep'. apply (Hcomps _ Hin').
 Qed.
 
 End Old.
-
-(* ---------------- the symlink type bit ---------------- *)
-Lemma testbit27 m : N.testbit m 27 = negb (N.eqb ((m / 134217728) mod 2) 0).
-Proof.
-  pose proof (N.testbit_spec' m 27) as H. change (2 ^ 27) with 134217728 in H.
-  destruct (N.testbit m 27); simpl in H; rewrite <- H; reflexivity.
-Qed.
-
-Lemma land_pow27 m : N.land m 134217728 = if N.testbit m 27 then 134217728 else 0.
-Proof.
-  apply N.bits_inj. intros k. rewrite N.land_spec. change 134217728 with (2 ^ 27). rewrite N.pow2_bits_eqb.
-  destruct (N.eqb 27 k) eqn:E.
-  - apply N.eqb_eq in E. subst k. rewrite andb_true_r. destruct (N.testbit m 27) eqn:T.
-    + rewrite N.pow2_bits_true. reflexivity.
-    + rewrite N.bits_0. reflexivity.
-  - rewrite andb_false_r. destruct (N.testbit m 27).
-    + rewrite N.pow2_bits_false; auto. apply N.eqb_neq in E. exact E.
-    + rewrite N.bits_0. reflexivity.
-Qed.
-
-Lemma go_mode_link t perm : mode_is_symlink (go_mode (KLink t) perm) = true.
-Proof.
-  unfold go_mode, mode_is_symlink, has_bits. pose proof (land511 perm) as Hp.
-  unfold ModeSetuid, ModeSetgid, ModeSticky, ModeSymlink. rewrite land_pow27, testbit27.
-  set (x := N.land perm 511 + (if negb (N.land perm S_ISUID =? 0) then 8388608 else 0)
-            + (if negb (N.land perm S_ISGID =? 0) then 4194304 else 0)
-            + (if negb (N.land perm S_ISVTX =? 0) then 1048576 else 0)).
-  assert (Hx : x < 134217728).
-  { unfold x. destruct (negb (N.land perm S_ISUID =? 0)), (negb (N.land perm S_ISGID =? 0)), (negb (N.land perm S_ISVTX =? 0)); lia. }
-  assert (E : (x + 134217728) / 134217728 = 1).
-  { symmetry. apply (N.div_unique (x + 134217728) 134217728 1 x); lia. }
-  rewrite E. reflexivity.
-Qed.
 
 (* ---------------- "below" on strings and on components ---------------- *)
 Lemma comps_app_sep_gen a b : comps (a ++ sep :: b) = comps a ++ comps b.
